@@ -80,14 +80,26 @@ class OElem(Abstract):
         if name == "find":
             def find(path):
                 p = it.concrete_key(path)
-                if not (isinstance(p, str) and p.startswith("./") and "/" not in p[2:] and p[2:].isalnum()):
+                if isinstance(p, str) and p.startswith(".//") and p[3:].isalnum():
+                    want, deep = p[3:], True
+                elif isinstance(p, str) and p.startswith("./") and "/" not in p[2:] and p[2:].isalnum():
+                    want, deep = p[2:], False
+                elif isinstance(p, str) and p.isalnum():
+                    want, deep = p, False
+                else:
                     raise C.Unsupported(f"find({p!r})")
-                want = p[2:]
-                for k in self.kids:
-                    r = M.equal(it, k.tag, want)
-                    if r is True or (r is not False and it.branch(zbool(r))):
-                        return k
-                return None
+
+                def search(node):
+                    for k in node.kids:           # document order: a child, then its descendants
+                        r = M.equal(it, k.tag, want)
+                        if r is True or (r is not False and it.branch(zbool(r))):
+                            return k
+                        if deep:
+                            g = search(k)
+                            if g is not None:
+                                return g
+                    return None
+                return search(self)
             return find
         if name == "__class__":
             return ET.Element
@@ -150,14 +162,20 @@ def install(it):
     it.models[_copy.copy] = m_copy
 
 
-def make_tree(world, k, prefix="c"):
-    """input element with k direct children: symbolic tags and texts, opaque subtrees below -> (tree, assumptions)"""
+def make_tree(world, k, prefix="c", grand=False):
+    """input element with k direct children: symbolic tags and texts, opaque subtrees below -> (tree, assumptions);
+    grand: every child with an even index is an aggregate holding one grandchild with a symbolic tag"""
     from pyvc.values import tlen
     kids = []; asm = []
     for i in range(k):
         tag = z3.Const(f"{prefix}{i}_tag", V); text = z3.Const(f"{prefix}{i}_text", V)
         asm += [tlen(tag) >= 1, tlen(text) >= 0]
-        kids.append(OElem(world, "input", f"{prefix}{i}", SVal(str, tag), SVal(str, text), [], rest=z3.Const(f"{prefix}{i}_rest", V)))
+        gk = []
+        if grand and i % 2 == 0:
+            gt = z3.Const(f"{prefix}{i}g_tag", V)
+            asm.append(tlen(gt) >= 1)
+            gk = [OElem(world, "input", f"{prefix}{i}g", SVal(str, gt), SVal(str, z3.Const(f"{prefix}{i}g_text", V)), [], rest=z3.Const(f"{prefix}{i}g_rest", V))]
+        kids.append(OElem(world, "input", f"{prefix}{i}", SVal(str, tag), SVal(str, text) if not gk else None, gk, rest=z3.Const(f"{prefix}{i}_rest", V)))
     rt = z3.Const("root_tag", V)
     asm.append(tlen(rt) >= 1)
     return OElem(world, "input", "elem", SVal(str, rt), None, kids), asm
